@@ -114,6 +114,12 @@ impl Carrier {
                     // ago (> IRREVOCABLY_RESOLVED), so we don't need to worry about it.
                     ConfirmationStatus::IrrevocablyResolved
                 }
+                rpc_errors::RPC_IN_WARMUP => {
+                    // bitcoind has been restarted and is not ready yet. This is the tail of an outage, not a rejection.
+                    log::error!("bitcoind is warming up, retrying request when possible");
+                    self.flag_bitcoind_unreachable();
+                    self.send_transaction(tx)
+                }
                 rpc_errors::RPC_DESERIALIZATION_ERROR => {
                     // Adding this here just for completeness. We should never end up here. The Carrier only sends txs handed by the Responder,
                     // who receives them from the Watcher, who checks that the tx can be properly deserialized.
@@ -158,6 +164,12 @@ impl Carrier {
                 rpc_errors::RPC_INVALID_ADDRESS_OR_KEY => {
                     log::info!("Transaction not found in mempool: {txid}");
                     false
+                }
+                rpc_errors::RPC_IN_WARMUP => {
+                    // bitcoind has been restarted and is not ready yet. This is the tail of an outage, not an answer.
+                    log::error!("bitcoind is warming up, retrying request when possible");
+                    self.flag_bitcoind_unreachable();
+                    self.in_mempool(txid)
                 }
                 e => {
                     // DISCUSS: This could result in a silent error with unknown consequences
